@@ -73,6 +73,7 @@ func rulesC11(c *Ctx, r *Report) {
 	rulesSamParser(c, r)
 	rulesSamWriter(c, r)
 	rulesFastaWriter(c, r)
+	rulesFileDelegation(c, r) // a malformed line through File: every item of Reader is handed on, the iteration goes on as Reader does
 	rulesBedWriterLadder(c, r)
 	rulesMakeThenAppend(c, r, "formats/fasta", "formats/fastq", "formats/sam", "formats/bed", "formats/newick", "formats/smtext")
 	for _, rel := range []string{"formats/fasta", "formats/fastq", "formats/sam", "formats/bed", "formats/newick"} {
